@@ -100,18 +100,21 @@ def fold_graph(inits, edges, quiet_of, stim_ops):
 
 
 def cover_paths(init_id, macro, max_len=40):
-    """Paths from the initial state that together traverse every macro edge at least once."""
+    """Paths from the initial state that together traverse every macro edge at least once.  Greedy: start
+    at the shallowest state that still has an uncovered out-edge, keep taking uncovered edges, hop to the
+    nearest state that has one (bounded search), stop at max_len."""
     uncovered = {(u, i) for u, outs in macro.items() for i in range(len(outs))}
     total = len(uncovered)
+    left = {u: len(outs) for u, outs in macro.items()}      # uncovered out-edges per state
     paths = []
-    # shortest path (as edge indices) from init to every node
-    par = {init_id: None}
+    par, depth = {init_id: None}, {init_id: 0}
     q = collections.deque([init_id])
     while q:
         u = q.popleft()
         for i, (_, _, v, _) in enumerate(macro[u]):
             if v not in par:
                 par[v] = (u, i)
+                depth[v] = depth[u] + 1
                 q.append(v)
 
     def route(v):
@@ -120,15 +123,20 @@ def cover_paths(init_id, macro, max_len=40):
             u, i = par[v]
             r.append((u, i))
             v = u
-        return list(reversed(r))
+        r.reverse()
+        return r
+
+    def take(u, i):
+        if (u, i) in uncovered:
+            uncovered.discard((u, i))
+            left[u] -= 1
 
     def nearest_uncovered(src, limit):
-        # BFS from src to a node having an uncovered out-edge; returns the edge list to get there
         seenb = {src: None}
-        qq = collections.deque([src])
+        qq = collections.deque([(src, 0)])
         while qq:
-            u = qq.popleft()
-            if any((u, i) in uncovered for i in range(len(macro[u]))):
+            u, d = qq.popleft()
+            if left[u] > 0:
                 r = []
                 w = u
                 while seenb[w] is not None:
@@ -136,39 +144,50 @@ def cover_paths(init_id, macro, max_len=40):
                     r.append((pu, pi))
                     w = pu
                 r.reverse()
-                return r if len(r) <= limit else None
+                return r
+            if d >= limit:
+                continue
             for i, (_, _, v, _) in enumerate(macro[u]):
                 if v not in seenb:
                     seenb[v] = (u, i)
-                    qq.append(v)
+                    qq.append((v, d + 1))
         return None
 
+    # (fold_graph only returns reachable states; be robust anyway)
+    for (u, i) in [e for e in uncovered if e[0] not in par]:
+        take(u, i)
+    total = len(uncovered)
+    order = sorted(par.keys(), key=lambda u: (depth[u], u))
+    oi = 0
     while uncovered:
-        u0, i0 = min(uncovered, key=lambda ui: (len(route(ui[0])), ui[0], ui[1]))
+        while left[order[oi]] == 0:
+            oi += 1
+        u0 = order[oi]
         path = route(u0)
+        for (pu, pi) in path:
+            take(pu, pi)
         cur = u0
-        while True:
+        while len(path) < max_len + 20:
             pick = None
-            for i in range(len(macro[cur])):
-                if (cur, i) in uncovered:
-                    pick = i
-                    break
+            if left[cur] > 0:
+                for i in range(len(macro[cur])):
+                    if (cur, i) in uncovered:
+                        pick = i
+                        break
             if pick is None:
                 if len(path) >= max_len:
                     break
-                r = nearest_uncovered(cur, max_len - len(path))
+                r = nearest_uncovered(cur, min(6, max_len - len(path)))
                 if not r:
                     break
                 for (pu, pi) in r:
-                    uncovered.discard((pu, pi))
+                    take(pu, pi)
                     path.append((pu, pi))
                 cur = macro[r[-1][0]][r[-1][1]][2]
                 continue
-            uncovered.discard((cur, pick))
+            take(cur, pick)
             path.append((cur, pick))
             cur = macro[cur][pick][2]
-            if len(path) >= max_len + 20:
-                break
         paths.append([{"l": macro[u][i][0], "o": macro[u][i][1], "p": macro[u][i][3]} for (u, i) in path])
     return paths, total
 
@@ -346,7 +365,7 @@ def rpc_plans(ctx, done):
         if j.key == "full" and name == "rpc_full_nowatch" and r.ok:
             ctx.cover(exhaustive=True)
             if not ctx.quick:
-                ctx.require_coverage(r, ["Arrive", "CacheGet", "CacheAdd", "Allow", "Acquire", "Finish", "Tick"])
+                ctx.require_coverage(r, ["MCArrive", "MCCacheGet", "MCCacheAdd", "MCAllow", "MCAcquire", "MCFinish", "MCTick"])
         if j.key == "replay" and r.ok:
             try:
                 init_id, macro = fold_graph(r.printed.get("INIT", []), r.printed.get("EDGE", []), quiet, RPC_STIM)
@@ -460,7 +479,8 @@ def sh_plans(ctx, done):
             continue
         r = j.res
         if name == "sh_full_scopes" and r.ok and not ctx.quick:
-            ctx.require_coverage(r, ["Open", "Handle", "SetService", "RateCheck", "StoreAnswers", "Reserve", "Finish", "RemoteReset"])
+            ctx.require_coverage(r, ["MCOpen", "MCHandle", "MCSetService", "MCRateCheck", "MCStoreAnswers", "MCReserve", "MCFinish",
+                                     "MCRemoteReset"])
         if j.key == "replay" and r.ok:
             try:
                 init_id, macro = fold_graph(r.printed.get("INIT", []), r.printed.get("EDGE", []), quiet, SH_STIM)
